@@ -25,6 +25,8 @@ double __v_exp_lemma_inv(double a);                       // asserts E(a)E(-a) =
 void   __v_note(const char* label);                       // free-form trace marker
 long   __v_concretize(long v);                            // fork over the feasible values of v
 void   __v_check_exp_args(const char* label);             // all exp() arguments so far are <= 0, one of them is 0
+void   __v_exp_scope_begin(void);                         // start recording the arguments of exp() calls (library code under test)
+void   __v_check_exp_no_overflow(const char* label);      // no exp() argument since __v_exp_scope_begin exceeds 709 (exp overflows a double above 709.78)
 // cooperative threads of the symbolic engine (one simulated MPI rank per thread; see model/mpi_multi.cpp)
 long   __v_thread_create(void (*fn)(long), long arg);     // created suspended; returns its id (main thread = 0)
 void   __v_switch(long tid);                              // transfer control; returns when control is transferred back
